@@ -544,6 +544,51 @@ fn direct_roots(maxd: u32) -> Vec<(Root, bool)> {
     v
 }
 
+/// owned-buffer constructors: contents, call order, rejection of short data, clone independence, trait views
+fn check_ctors(w: u32, h: u32, rep: &mut Report) {
+        let n = (w * h) as usize;
+    let cv = |clause: &str, what: String| (format!("{clause}|Buf2 {w}x{h}"), what, obj! {"root" => format!("Buf2 {w}x{h}"), "contents" => "[]", "recipe" => Vec::<String>::new(), "clause" => clause, "detail" => ""});
+    rep.eval();
+    if let Ok(b) = caught(|| Buf2::<i32>::new((w, h))) {
+        if b.dims() != (w, h) || b.data().len() != n || b.data().iter().any(|v| *v != 0) { let (k, wh, c) = cv("ctor-new", format!("Buf2::new(({w},{h})): dims {:?}, data {:?}", b.dims(), b.data())); rep.violation(k, wh, c); }
+    } else { rep.h("zero-area-construction-panics(carve-out)"); }
+    let mut calls = vec![];
+    if let Ok(b) = caught(|| Buf2::new_with((w, h), |x, y| { calls.push((x, y)); (10 * y + x) as i32 })) {
+        let exp: Vec<i32> = (0..h).flat_map(|y| (0..w).map(move |x| (10 * y + x) as i32)).collect();
+        let exp_calls: Vec<(u32, u32)> = (0..h).flat_map(|y| (0..w).map(move |x| (x, y))).collect();
+        if b.data() != exp || calls != exp_calls { let (k, wh, c) = cv("ctor-new_with", format!("new_with: data {:?} expected {exp:?}; calls {calls:?}", b.data())); rep.violation(k, wh, c); }
+    }
+    for extra in [-1i32, 0, 1, 5] {
+        rep.eval();
+        let len = (n as i32 + extra).max(0) as usize;
+        let res = caught(|| Buf2::new_from((w, h), 1..=len as i32));
+        match (res, len >= n) {
+            (Ok(b), true) => { if b.data() != (1..=n as i32).collect::<Vec<_>>() || b.dims() != (w, h) { let (k, wh, c) = cv("ctor-new_from", format!("new_from with {len} items: data {:?}", b.data())); rep.violation(k, wh, c); } }
+            (Ok(b), false) => { let (k, wh, c) = cv("ctor-accepts-too-small", format!("new_from(({w},{h})) accepted an iterator of only {len} items: {:?}", b.data())); rep.violation(k, wh, c); }
+            (Err(_), true) => { if w > 0 { let (k, wh, c) = cv("ctor-new_from-panics", format!("new_from(({w},{h})) panicked with {len} >= {n} items")); rep.violation(k, wh, c); } else { rep.h("zero-area-construction-panics(carve-out)"); } }
+            (Err(_), false) => { rep.h("short-data-rejected"); }
+        }
+    }
+    if w > 0 && h > 0 {
+        rep.eval();
+        let a = Buf2::new_from((w, h), 1..);
+        let mut b = a.clone();
+        b.fill(-7);
+        fn sum_through<T: re::util::buf::AsSlice2<i32>>(t: T) -> i32 { t.as_slice2().iter().sum() }
+        fn bump<T: re::util::buf::AsMutSlice2<i32>>(mut t: T) { t.as_mut_slice2().fill(3); }
+        let s0: i32 = a.data().iter().sum();
+        let ok_clone = a.data() == (1..=n as i32).collect::<Vec<_>>() && b.data().iter().all(|v| *v == -7);
+        let ok_ref = sum_through(&a) == s0 && sum_through(a.as_slice2()) == s0;
+        let mut c2 = a.clone();
+        bump(&mut c2);
+        let ok_mut = c2.data().iter().all(|v| *v == 3) && a.data()[0] == 1;
+        let mut d = a.clone();
+        d.data_mut()[n - 1] = 99;
+        let ok_data = d[[w - 1, h - 1]] == 99;
+        if !(ok_clone && ok_ref && ok_mut && ok_data) { let (k, wh, c) = cv("ctor-clone-traits", format!("clone/AsSlice2/AsMutSlice2/data_mut inconsistent: {ok_clone} {ok_ref} {ok_mut} {ok_data}")); rep.violation(k, wh, c); }
+    }
+}
+
 fn main() {
     silence_panics();
     let cfg = Cfg::from_args(|_| "C11".into());
@@ -555,6 +600,10 @@ fn main() {
             let contents: Vec<i32> = case.get("contents").and_then(|j| j.as_str()).unwrap_or("[]")
                 .trim_matches(|c| c == '[' || c == ']').split(',').filter_map(|s| s.trim().parse().ok()).collect();
             let root = parse_root(&rootd);
+            if case.get("clause").and_then(|j| j.as_str()).map_or(false, |c| c.starts_with("ctor-new") || c == "ctor-clone-traits" || (c == "ctor-accepts-too-small" && rootd.starts_with("Buf2"))) {
+                if let Root::Buf { w, h } = root { check_ctors(w, h, rep); }
+                return;
+            }
             let st = State { root, contents };
             let mut r = Report::new();
             expand(&st, &mut r, &src, false, true);
@@ -591,6 +640,7 @@ fn main() {
         if a { rep.h("direct-accepted"); init.push(State { root, contents: data }); }
         else if can_hold { rep.h("direct-rejected-though-holdable(allowed)"); } else { rep.h("direct-rejected"); }
     }
+    for w in 0..=maxd { for h in 0..=maxd { check_ctors(w, h, &mut rep); } }
     // BFS by levels; each level expanded in parallel
     let mut seen: HashMap<State, (Option<usize>, String)> = HashMap::new();
     let mut order: Vec<State> = vec![];
